@@ -51,6 +51,9 @@ RAISERS = {
     "assert": ["(assert False)"], "unpack2": ["(setv [p q]", "[1])"],
     "aug3": ["(+= aug-x 1", '"a")'], "cmp2": ["(< 1", "None)"], "chainc2": ["(chainc 1 <", "None)"],
     "kwcall2": ["(idf2 1", ":k 2)"], "cut2": ["(cut 5", "1)"],
+    "py-compr-if": ['(py "[q for q in [0] if 10 / q]")'], "py-compr-iter": ['(py "[q for q in range(1 / 0)]")'],
+    "py-lambda-default": ['(py "(lambda y=1 / 0: y)()")'], "pys-with": ['(pys "with open(1 / 0): pass")'],
+    "py-call": ['(py "boom()")'],
 }
 FILENAME = "<hyv_lines>"
 
@@ -112,7 +115,8 @@ def run_program(text):
 EXC = {"call": "RuntimeError", "call3": "RuntimeError", "div2": "ZeroDivisionError", "index2": "IndexError",
        "attr2": "AttributeError", "name": "NameError", "raise2": "ValueError", "assert": "AssertionError",
        "unpack2": "ValueError", "aug3": "TypeError", "cmp2": "TypeError", "chainc2": "TypeError", "kwcall2": "TypeError",
-       "cut2": "TypeError"}
+       "cut2": "TypeError", "py-compr-if": "ZeroDivisionError", "py-compr-iter": "ZeroDivisionError",
+       "py-lambda-default": "ZeroDivisionError", "pys-with": "ZeroDivisionError", "py-call": "RuntimeError"}
 
 
 def _one(rec):
@@ -128,7 +132,7 @@ def main(run):
                 run.work, workers=16, label="lines")
     if r.violated:
         raise MachineryError(f"HyLines: {r.violated} violated on the specification")
-    run.add_tlc(r, f"HyLines: every chain of <= {md} enclosing constructs (31 kinds) x 14 raising forms, with its layout")
+    run.add_tlc(r, f"HyLines: every chain of <= {md} enclosing constructs (31 kinds) x 19 raising forms, with its layout")
     rows = r.ex("PROG")
     run.log(f"TLC: {len(rows)} programs")
     rows.sort(key=lambda x: json.dumps(x, sort_keys=True))
@@ -164,7 +168,7 @@ def main(run):
     return run.finish("model_checking",
                       f"every chain of <= {md} enclosing constructs out of 31 (statement-lifting forms, comprehensions of both "
                       "strategies, functions, classes, try / with / loops, let, match, call and collection slots, f-string, core "
-                      "and user macros) around each of 14 raising forms (1-3 lines); HyLines computes the line span of the raising "
+                      "and user macros) around each of 19 raising forms (1-3 lines); HyLines computes the line span of the raising "
                       "form; the program is compiled and run and the last traceback frame of the module compared with the span"
 ,
                       extra={"programs": len(rows)})
